@@ -224,18 +224,19 @@ func PointIndexOK(point string) bool { panic("ghost") }
 //@ end
 
 //@ define rowsLen(b [][]string, n int) bool = forall(k, 0, len(b), len(b[k]) == n)
+//@ define rowsOwn(b [][]string) bool = fresh(b) && forall(k, 0, len(b), base(b[k]) == 0 || fresh(b[k]))
 //@ func FindInsertionPoints
 //@ props C09 C01
 //@ returns points, err
 //@ requires forall(k, 0, len(startingPoints), len(startingPoints[k]) == len(startingPoints[0]))
 //@ modifies fresh
-//@ loop 0 invariant[rows] pointI >= 0 && rowsLen(oldBranch, pointI) && fresh(oldBranch)
-//@ loop 1 invariant[rows] pointI >= 0 && rowsLen(oldBranch, pointI) && fresh(oldBranch) && fresh(newInsertionPoints)
-//@ loop 2 invariant[copy] pointI >= 0 && rowsLen(oldBranch, pointI) && fresh(oldBranch) && fresh(newBranchSet) && len(newBranchSet) == len(oldBranch) && forall(k, 0, it, len(newBranchSet[k]) == pointI) && forall(k, it, len(newBranchSet), len(newBranchSet[k]) == 0)
-//@ loop 3 invariant[ext] pointI >= 0 && rowsLen(oldBranch, pointI) && fresh(oldBranch) && fresh(newBranchSet) && len(newBranchSet) == len(oldBranch) && forall(k, 0, it, len(newBranchSet[k]) == pointI + 1) && forall(k, it, len(newBranchSet), len(newBranchSet[k]) == pointI)
-//@ loop 4 invariant[ext] pointI >= 0 && fresh(oldBranch) && forall(k, 0, it, len(oldBranch[k]) == pointI + 1) && forall(k, it, len(oldBranch), len(oldBranch[k]) == pointI)
-//@ loop 5 invariant[rows] pointI >= 0 && fresh(oldBranch) && rowsLen(oldBranch, pointI + 1)
-//@ loop 6 invariant[rows] pointI >= 0 && fresh(oldBranch) && rowsLen(oldBranch, pointI + 1)
+//@ loop 0 invariant[rows] pointI >= 0 && rowsLen(oldBranch, pointI) && rowsOwn(oldBranch)
+//@ loop 1 invariant[rows] pointI >= 0 && rowsLen(oldBranch, pointI) && rowsOwn(oldBranch) && fresh(newInsertionPoints) && base(newInsertionPoints) != base(oldBranch)
+//@ loop 2 invariant[copy] pointI >= 0 && rowsLen(oldBranch, pointI) && rowsOwn(oldBranch) && rowsOwn(newBranchSet) && len(newBranchSet) == len(oldBranch) && forall(k, 0, it, len(newBranchSet[k]) == pointI) && forall(k, it, len(newBranchSet), len(newBranchSet[k]) == 0)
+//@ loop 3 invariant[ext] pointI >= 0 && rowsLen(oldBranch, pointI) && rowsOwn(oldBranch) && rowsOwn(newBranchSet) && len(newBranchSet) == len(oldBranch) && forall(k, 0, it, len(newBranchSet[k]) == pointI + 1) && forall(k, it, len(newBranchSet), len(newBranchSet[k]) == pointI)
+//@ loop 4 invariant[ext] pointI >= 0 && rowsOwn(oldBranch) && forall(k, 0, it, len(oldBranch[k]) == pointI + 1) && forall(k, it, len(oldBranch), len(oldBranch[k]) == pointI)
+//@ loop 5 invariant[rows] pointI >= 0 && rowsOwn(oldBranch) && rowsLen(oldBranch, pointI + 1)
+//@ loop 6 invariant[rows] pointI >= 0 && rowsOwn(oldBranch) && rowsLen(oldBranch, pointI + 1)
 //@ end
 
 //@ func extractID
